@@ -126,6 +126,7 @@ class W4Device(object):
         self.nsense = 0
         self.calls = []                 # (t, name, detail)
         self.exchanges = 0
+        self.bad_t1 = False             # Type 1 Tag answers RID with a short frame
         self.listener = None            # callable(kind, target, timeout) -> LocalTarget | None (scripted counterpart)
         self.responder = None           # callable(data, timeout) -> bytes | raises   (send_rsp_recv_cmd)
 
@@ -147,8 +148,8 @@ class W4Device(object):
             self.active = None
         self.powered = p
 
-    def _note(self, name, detail=None):
-        self.calls.append((round(self.k.now() - self.t0, 6), name, detail))
+    def _note(self, name, detail=None, obj=None):
+        self.calls.append((round(self.k.now() - self.t0, 6), name, detail, obj))
 
     # ---- life cycle ---------------------------------------------------------------------------
     def close(self):
@@ -179,7 +180,10 @@ class W4Device(object):
         self.k.time.sleep(0.004)
         self._sync()
         if idx in self.sense_fault:
-            raise self.sense_fault[idx]()
+            e = self.sense_fault[idx]()
+            if isinstance(e, IOError):
+                self._note("raise_fatal", repr(e))
+            raise e
         if not self.powered:
             return None
         for t in self.tags:
@@ -191,7 +195,13 @@ class W4Device(object):
             self.active = t
             rsp = dict(rsp)
             brty = rsp.pop("brty", target.brty)
-            return clf.RemoteTarget(brty, **rsp)
+            found = clf.RemoteTarget(brty, **rsp)
+            if self.bad_t1 and "rid_res" in rsp:
+                found.rid_res = rsp["rid_res"][:2]
+                self._note("found_malformed", found, found)      # the frontend must reject this one (RID length)
+            else:
+                self._note("found", found, found)
+            return found
         return None
 
     def sense_tta(self, target):
@@ -241,7 +251,7 @@ class W4Device(object):
     def send_cmd_recv_rsp(self, target, data, timeout):
         clf = self.nfc.clf
         self.exchanges += 1
-        self._note("send_cmd_recv_rsp", None if data is None else len(data))
+        self._note("send_cmd_recv_rsp", None if data is None else len(data), target)
         timeout = 0.0 if timeout is None else max(0.0, float(timeout))
         self.k.time.sleep(0.0008)
         self._sync()
@@ -256,7 +266,7 @@ class W4Device(object):
         return bytearray(rsp)
 
     def send_rsp_recv_cmd(self, target, data, timeout=None):
-        self._note("send_rsp_recv_cmd", None if data is None else len(data))
+        self._note("send_rsp_recv_cmd", None if data is None else len(data), target)
         if self.responder is not None:
             return self.responder(data, timeout)
         if timeout is None:
